@@ -338,6 +338,17 @@ def preprocess(outputs: DictOfNamedArrays, target: Target) -> PreprocessResult:
     assert isinstance(new_outputs, DictOfNamedArrays)
 
     mapper = CodeGenPreprocessor(target)
+
+    # Names generated for wrapped data (and unnamed placeholders) must not
+    # coincide with names chosen by the user for inputs or outputs.
+    from pytato.transform import InputGatherer
+    mapper.var_name_gen.add_names(
+        {inp.name
+         for inp in InputGatherer()(new_outputs)
+         if isinstance(inp, Placeholder | SizeParam) and inp.name is not None}
+        | set(new_outputs.keys()),
+        conflicting_ok=True)
+
     new_outputs = copy_dict_of_named_arrays(new_outputs, mapper)
 
     return PreprocessResult(outputs=new_outputs,
